@@ -6,6 +6,7 @@ import hashlib
 import os
 import re
 import subprocess
+import sys
 
 HERE = os.path.dirname(os.path.abspath(__file__))
 ROOT = os.path.dirname(HERE)
@@ -48,7 +49,7 @@ def theorem_names(path):
         if m and ns and ns[-1] == m.group(1):
             ns.pop()
             continue
-        m = re.match(r"\s*(?:protected\s+|private\s+)?theorem\s+(\S+)", line)
+        m = re.match(r"\s*(?:@\[[^\]]*\]\s*)?(?:protected\s+)?theorem\s+(\S+)", line)   # private helpers are covered transitively
         if m:
             names.append(".".join(ns + [m.group(1)]))
     return names
@@ -76,6 +77,9 @@ def build_and_audit(prop, tier, skip=False):
     fh = lock()
     try:
         try:
+            tools = os.path.join(ROOT, "tools")
+            if tools not in sys.path:
+                sys.path.insert(0, tools)
             import extract_tables
             res["translator"] = extract_tables.regenerate()
         except Exception as exc:  # noqa: BLE001
@@ -108,9 +112,9 @@ def build_and_audit(prop, tier, skip=False):
             with open(audit, "w") as a:
                 a.write(imports + "\n".join(f"#print axioms {n}" for n in allnames) + "\n")
             rc2, out2 = run(["lake", "env", "lean", audit])
-            for m in re.finditer(r"'([^']+)' depends on axioms: \[([^\]]*)\]", out2.replace("\n", " ")):
+            for m in re.finditer(r"'(\S+)' depends on axioms: \[([^\]]*)\]", out2.replace("\n", " ")):
                 axioms[m.group(1)] = [a.strip() for a in m.group(2).split(",") if a.strip()]
-            for m in re.finditer(r"'([^']+)' does not depend on any axioms", out2):
+            for m in re.finditer(r"'(\S+)' does not depend on any axioms", out2):
                 axioms[m.group(1)] = []
         for n in names:
             ok = build_ok and n in axioms and set(axioms[n]) <= ALLOWED_AXIOMS and not bad
@@ -151,8 +155,16 @@ def tie_props():
     return TIE_MAP.keys()
 
 
-# which Tie theorems serve which property
-TIE_MAP = {}
+# which Tie theorems (source-regenerated tables = model tables) serve which property
+TIE_MAP = {
+    "C03": ["tie_sampleSide"],
+    "C05": ["tie_scalarLogic"],
+    "C06": ["tie_clipSides"],
+    "C10": ["tie_getLims"],
+    "C11": ["tie_slicerEndpoint", "tie_slicerCombine"],
+    "C14": ["tie_layerPrefix"],
+    "C15": ["tie_mismatchCond", "tie_ctorCensus"],
+}
 
 
 def tie_props_of(name):
